@@ -46,7 +46,7 @@ AlphaDirs == AlphaOf([Query |-> {"o", "s"}, T |-> {"s"}])
 AlphaOps == AlphaOf([Query |-> {"o", "s"}, Mutation |-> {"m1", "m3"}, T |-> {"s"}])
 AlphaFragQ == AlphaOf([Query |-> {"o", "s"}, T |-> {"s"}])
 \* fault-enumeration alphabets: every nullability layout between a fault and the root
-AlphaLayout == AlphaOf([Query |-> {"o", "on", "lo", "lnn", "nl", "nlnn", "ll", "sn", "ls", "e", "le"}, T |-> {"s", "sn"}])
+AlphaLayout == AlphaOf([Query |-> {"o", "on", "lo", "lnn", "nl", "nlnn", "ll", "lln", "sn", "ls", "e", "le"}, T |-> {"s", "sn"}])
 AlphaNested == AlphaOf([Query |-> {"o", "on", "lnn"}, T |-> {"sn", "on", "lo", "i"}])
 AlphaAbstractF == AlphaOf([Query |-> {"p", "np", "lp", "lu"}, P |-> {"s"}, A |-> {"an"}, U |-> {"__typename"}])
 AlphaPairs == AlphaOf([Query |-> {"o", "on", "s"}, T |-> {"s", "sn"}])
@@ -72,7 +72,9 @@ VarValsSmall == [ v |-> {Bool(TRUE), Bool(FALSE)}, w |-> {Bool(FALSE)}, n |-> {I
 AlphaSub == AlphaOf([Subscription |-> {"ev", "evs"}, T |-> {"s", "sn"}])
 AlphaSub3 == AlphaOf([Subscription |-> {"ev"}, T |-> {"sn"}])
 AlphaSub2 == AlphaOf([Subscription |-> {"ev"}, T |-> {"s", "o"}])
-ArgOptsSub == [ f |-> {<<>>}, g |-> {<<>>}, ev |-> {<<>>, <<ArgV("a", Lit("var", "m"))>>, <<ArgV("b", Lit("str", "q")), ArgV("a", Lit("int", 1))>>} ]
+ArgOptsSub == [ f |-> {<<>>}, g |-> {<<>>}, ev |-> {<<>>, <<ArgV("a", Lit("var", "m"))>>, <<ArgV("b", Lit("str", "q")), ArgV("a", Lit("int", 1))>>,
+                                                   <<ArgV("b", Lit("var", "x")), ArgV("a", Lit("var", "y"))>>} ]
+ArgOptsSub3 == [ f |-> {<<>>}, g |-> {<<>>}, ev |-> {<<>>, <<ArgV("b", Lit("var", "x")), ArgV("a", Lit("var", "y"))>>} ]
 EvKinds == {[o |-> "raise"], [o |-> "null"], [o |-> "exc"]}
 EvKinds2 == {[o |-> "raise"], [o |-> "null"]}
 AlphaAll == AlphaOf([Query |-> {"o", "on", "lo", "lnn", "ll", "p", "lp", "u", "lu", "s", "sn", "i", "e", "le", "ls", "f", "g", "__typename"},
@@ -90,6 +92,8 @@ AlphaSchedA == AlphaOf([Query |-> {"o"}, T |-> {"f"}])
 ArgOptsFew == [ f |-> {<<>>, <<ArgV("a", Lit("int", 1))>>, <<ArgV("b", Lit("str", "q"))>>}, g |-> {<<ArgV("r", Lit("int", 2))>>} ]
 \* variables reaching a directive only through two levels of fragment spreads
 AlphaFragVar == AlphaOf([Query |-> {"o"}, T |-> {"s"}])
+DirsMix == {<<>>, <<Dir("include", Lit("bool", TRUE))>>, <<Dir("skip", Lit("var", "v"))>>}
+AlphaDirs2 == AlphaOf([Query |-> {"o"}, T |-> {"s", "d"}])
 AllFieldNames == UNION {DOMAIN TypesExec[tn].fields : tn \in DOMAIN TypesExec}
 SomeFieldNames == {"o", "sn", "m2", "m3", "lnn"}
 AlphaMut == AlphaOf([Mutation |-> {"m1", "m3", "ml"}, T |-> {"s", "o"}])
